@@ -183,12 +183,15 @@ def generate(rng, tier):
         for _ in range(rng.randrange(3, 9)):
             path = rand_path(rng, rules)
             method = rng.choice(METHODS)
-            docroot = rng.random() < 0.25
-            if docroot:
-                ex, isf, isd = RC.fs_bits(path) if "\x00" not in path else (False, False, False)
+            r = rng.random()
+            which = "1" if r < 0.25 else ("2" if r < 0.37 else "0")
+            if which == "2" and rng.random() < 0.6:
+                path = "/debug-info"       # a file of that name exists under the second document root
+            if which != "0":
+                ex, isf, isd = RC.fs_bits(path, which) if "\x00" not in path else (False, False, False)
             else:
                 ex = isf = isd = False
-            bits = "%d%d%d%d%d%d" % (docroot, ex, isf, isd, rng.random() < 0.5, rng.random() < 0.3)
+            bits = "%s%d%d%d%d%d" % (which, ex, isf, isd, rng.random() < 0.5, rng.random() < (0.6 if which == "2" else 0.3))
             ops.append("q:%s:%s:%s" % (method, hx(path), bits))
         cases.append("C02 " + " ".join(ops))
     return cases
@@ -206,6 +209,21 @@ def observe(case):
 
 
 canon_model = RC.canon_model
+
+
+def to_model(case):
+    """the model takes the file-system facts as booleans: which document root was used does not matter"""
+    t = case.split()
+    if t[0] == "RE":
+        return [case]
+    out = []
+    for tok in t:
+        p = tok.split(":")
+        if p[0] == "q" and p[3][0] == "2":
+            p[3] = "1" + p[3][1:]
+            tok = ":".join(p)
+        out.append(tok)
+    return [" ".join(out)]
 
 # ---- reference router written from the property text ------------------------------------------------
 
@@ -237,7 +255,7 @@ def ref_rule(rule, filters):
 
 
 def ref_dispatch(table, filters, method, path, bits):
-    docroot, ex, isf, isd, index, debug = [c == "1" for c in bits]
+    docroot, ex, isf, isd, index, debug = [c in "12" for c in bits]
     bit = BITS.get(method, 2)
     statics = {}
     for kind, key, fn, mask in table:
